@@ -33,6 +33,16 @@ func verifC08HTTPStream(mayCancel bool) {
 	// ... and the handler may still be busy (here: waiting for that very event)
 	// when it ends, so that the end of the stream has not been seen yet
 	lingers := mayCancel && zv.Bool("handler-lingers-until-the-context-ends")
+	// responses that are all-default messages (zero bytes on the wire) count like
+	// any other: 0 = none is empty, 1 = every response after the first, 2 = all
+	empties := 0
+	if !mayCancel {
+		empties = zv.Choose("empty-responses", 3)
+	}
+	firstCount := int32(10)
+	if empties == 2 {
+		firstCount = 0
+	}
 	hooks := &verifHooks{}
 	hooks.Stream = func(tag string, ss grpc.ServerStream) error {
 		for {
@@ -45,6 +55,10 @@ func verifC08HTTPStream(mayCancel bool) {
 			ss.SetTrailer(metadata.Pairs("t", "v"))
 		}
 		for i := 0; i < k; i++ {
+			if empties == 2 || (empties == 1 && i >= 1) {
+				ss.SendMsg(&verifMsg{})
+				continue
+			}
 			ss.SendMsg(&verifMsg{Count: int32(10 + i)})
 		}
 		if lingers {
@@ -74,13 +88,13 @@ func verifC08HTTPStream(mayCancel bool) {
 	if headerFirst {
 		cs.Header()
 	}
-	m := &verifMsg{}
+	m := &verifMsg{Count: 99}
 	first := cs.RecvMsg(m)
 	zv.Observe("first", k, fails, first == nil)
 	if first == nil {
 		zv.Reach("success")
 		zv.Assert(k == 1 && !fails, "success-only-for-exactly-one-response-and-nil-status")
-		zv.Assert(m.Count == 10, "the-delivered-message-is-that-response")
+		zv.Assert(m.Count == firstCount, "the-delivered-message-is-that-response")
 		second := cs.RecvMsg(&verifMsg{})
 		if !zv.Cancelled(ctx) {
 			zv.Assert(second == io.EOF, "then-clean-end")
